@@ -20,7 +20,7 @@ REPO = os.environ.get('VERIF_REPO', '/repo')
 def gen_job(rng, backend):
     n = rng.randint(1, 4)
     deps, kinds, keys = [], [], []
-    ctx_keys = ['a', 'b', 'c'][:rng.randint(1, 3)]
+    ctx_keys = ['a', 'b', 'c'][:rng.choice([0, 1, 2, 3, 3])]   # 0: the Lab's context is empty ({} or None)
     for k in range(n):
         d = sorted(set(rng.randrange(k) for _ in range(rng.randint(0, 2)))) if k else []
         deps.append(d)
@@ -31,7 +31,7 @@ def gen_job(rng, backend):
         keys.append(sorted(rng.sample(ctx_keys + ['zz'], rng.randint(0, len(ctx_keys)))))
     return dict(n=n, deps=deps, kinds=kinds, keys=keys, req=list(range(n)), backend=backend,
                 mw=rng.choice([1, 2, None]), context=[[k, rng.randint(1, 9)] for k in ctx_keys],
-                mark=rng.randint(1, 99))
+                mark=rng.randint(1, 99), ctx_none=(not ctx_keys and rng.random() < 0.5))
 
 
 def run_workers(jobs_per_worker, timeout):
